@@ -44,13 +44,13 @@ theorem exact_splitting_correct {lt : Int → Int → Bool} (hlt : StrictWeak lt
     (hm : (0 :: ps.map (·.1)).Pairwise (· ≤ ·)) (hall : ∀ p ∈ ps, IsPartition lt (keyRuns runs) p.1 p.2) :
     ((chunkRows runs (List.replicate runs.length 0) (ps.map (·.2))).map (fun row => kMerge lt row)).flatten =
       (kMerge lt runs).take (lastRank 0 ps) :=
-  exact_concat_eq_take_kMerge hlt hw hk ps hm hall
+  exact_concat_eq_take_kMerge hlt tagOrder_tagLt (goodRuns_of_wellTagged hw hk) ps hm hall
 
 theorem sampling_splitting_correct {lt : Int → Int → Bool} (hlt : StrictWeak lt) {runs : List (List Elem)}
     (hw : WellTagged runs) (hk : KeySorted lt runs) (vs : List Int) (hvs : vs.Pairwise (fun a b => lt b a = false)) :
     ((chunkRows runs (List.replicate runs.length 0) (samplingOffs lt runs vs)).map (fun row => kMerge lt row)).flatten =
       kMerge lt runs :=
-  sampling_concat_eq_kMerge hlt hw hk vs hvs
+  sampling_concat_eq_kMerge hlt tagOrder_tagLt (goodRuns_of_wellTagged hw hk) vs hvs
 
 theorem thread_target_position (lt : Int → Int → Bool) {runs : List (List Elem)} (os : List (List Nat))
     (prev : List Nat) (hch : Chain prev os) (hall : ∀ o ∈ os, o.length = runs.length ∧ Bounded runs o)
@@ -68,7 +68,7 @@ theorem inputs_advanced_exactly {lt : Int → Int → Bool} (hlt : StrictWeak lt
     (hw : WellTagged runs) (hk : KeySorted lt runs) {rank : Nat} {o : List Nat}
     (hp : IsPartition lt (keyRuns runs) rank o) :
     ((kMerge lt runs).take rank).Perm (takes runs o).flatten :=
-  take_kMerge_perm_prefixes hlt hw hk hp
+  take_kMerge_perm_prefixes hlt tagOrder_tagLt (goodRuns_of_wellTagged hw hk) hp
 
 /-- forced-sequential always wins, otherwise forced-parallel or the three thresholds -/
 theorem front_end_switch (fs fp : Bool) (t k n mk mn : Nat) :
